@@ -13,6 +13,10 @@ CFG = {
         'bitword.ToStr/large': 'bitword.BitWord[n].ToStr',
         'bitword.FromStr/cmp': 'bytes.Compare(bitword.BitWord[n].FromStr(a), bitword.BitWord[n].FromStr(b))',
         'bitword.FromStr/ToStr': 'bitword.BitWord[n].FromStr(bitword.BitWord[n].ToStr(ws))',
+        'bitword.Session/scribble': 'FromStr of each string, the caller overwrites the returned slices; then FromStr / Get(all i) / ToStr(FromStr) of each probe',
+        'bitword.FromStrs/batch': 'bitword.BitWord[n].FromStrs (batch in compact form)',
+        'bitword.ToStrs/batch': 'bitword.BitWord[n].ToStrs (batch in compact form)',
+        'bitword.ToStrs/flat': '[bitword.BitWord[n].ToStrs(windows of one flat buffer), the buffer afterwards]',
         'bitword.Get/any': 'bitword.BitWord[n].Get',
         'bitword.FirstDiff/any': 'bitword.BitWord[n].FirstDiff',
         'bitword.ToStr/any': 'bitword.BitWord[n].ToStr'},
@@ -30,7 +34,11 @@ CFG = {
          '+ FromStrs/ToStrs on all lists of length <= 3 over four elements (equal neighbours, empty elements); '
          '+ widened: FromStr/cmp (sign of bytes.Compare of the word slices = sign of comparing the strings) on all pairs of '
          'strings of length <= 1 over the 7-byte alphabet, a sample (thorough: all) of the pairs of length <= 2, random pairs '
-         'sharing a prefix; FromStr/ToStr (= ws plus the zero words completing the last byte) on every ToStr case of up to 4096 words.  Only with VERIF_C08_WIDE=1 (behaviour OUTSIDE the statement, proved for the model as C08_Get_any / '
+         'sharing a prefix; FromStr/ToStr (= ws plus the zero words completing the last byte) on every ToStr case of up to 4096 words.  + histories: Session/scribble (the caller overwrites every slice FromStr returned - all 256 one-byte strings x 4 widths and '
+         'mixed longer strings - then FromStr / Get at every index / ToStr(FromStr) of strings containing those bytes); FromStrs/ToStrs '
+         'batches of 4097..5000 elements in compact form (alphabet + run lengths; sizes not divisible by 3, 16, 33, 97; among the slowest '
+         'cases, so re-run under GOMAXPROCS 3/33/97); ToStrs over adjacent / overlapping / prefix-then-whole windows of ONE flat buffer '
+         '(result and the buffer afterwards), exhaustive over the split points of a 2*(8/n)+1-word buffer.  Only with VERIF_C08_WIDE=1 (behaviour OUTSIDE the statement, proved for the model as C08_Get_any / '
          'C08_FirstDiff_any / C08_ToStr_any and confirmed on the real code with that flag, but not part of the default run so that a '
          'rewrite that keeps the in-domain behaviour stays silent): Get at every index from below 0 to beyond the end, FirstDiff '
          'with negative from and end < -1, ToStr on arbitrary bytes. A case is non-trivial when its string/word list is non-empty (FirstDiff: '
